@@ -390,6 +390,30 @@ pub fn abs_block(k: u16, highest: u64) -> u64 {
     cand as u64
 }
 
+/// Absolute index of a DATA block number emitted by a sender whose highest cumulatively acknowledged block is `acked`:
+/// the unique K = k (mod 65536) in (acked, acked + 65536]. (A window may span up to 65535 blocks, so "nearest to the
+/// highest block seen" would misread retransmissions of a large window.)
+pub fn abs_after(k: u16, acked: u64) -> u64 {
+    let base = acked + 1;
+    let r = (k as u64 + 65536 - (base % 65536)) % 65536;
+    base + r
+}
+
+/// Absolute index of an ACK number delivered to a sender with blocks (acked, hi] outstanding: an in-window value if
+/// there is one, otherwise the closer of the stale and the future reading.
+pub fn abs_ack(k: u16, acked: u64, hi: u64) -> u64 {
+    let cand = abs_after(k, acked);
+    if cand <= hi || cand < 65536 {
+        return cand;
+    }
+    let stale = cand - 65536;
+    if acked - stale <= cand - hi {
+        stale
+    } else {
+        cand
+    }
+}
+
 pub fn decode(bytes: &[u8]) -> Option<rc::RPacket> {
     rc::decode(bytes).ok()
 }
